@@ -34,6 +34,24 @@ class NonSeekable(io.RawIOBase):
         return self._b.read()
 
 
+class Segmented(NonSeekable):
+    """a non-seekable stream whose read(n) returns at most `seg` bytes per call (a pipe, a socket): short reads are not end of stream"""
+
+    def __init__(self, data, seg):
+        super().__init__(data)
+        self._seg = seg
+
+    def read(self, n=-1):
+        if n is None or n < 0:
+            return self._b.read()               # read to the end (RawIOBase.readall semantics)
+        return self._b.read(min(n, self._seg))
+
+    def readinto(self, b):
+        chunk = self._b.read(min(len(b), self._seg))
+        b[:len(chunk)] = chunk
+        return len(chunk)
+
+
 def first_len(data):
     end = None
     for info, arg, pos in pickletools.genops(io.BytesIO(data)):
@@ -85,7 +103,32 @@ for name, data in good:
     if p.dumps() != data or rest != trail:
         fails.append({"program": name, "bytes": blob.hex(), "how": "non-seekable stream",
                       "what": f"dumps ok={p.dumps() == data}; what follows the pickle: {rest!r} (want {trail!r})"})
+    # non-seekable stream that delivers short reads: the parse itself must not depend on how the bytes arrive
+    for seg in (1, 7, max(1, len(data) // 2)):
+        sg = Segmented(blob, seg)
+        try:
+            p = fk.Pickled.load(sg)
+            ok = p.dumps() == data
+            err = None
+        except Exception as e:  # noqa
+            ok, err = False, f"{type(e).__name__}: {e}"[:120]
+        if not ok:
+            fails.append({"program": name, "bytes": blob.hex(), "how": "non-seekable stream with short reads: wrong parse",
+                          "what": f"reads of at most {seg} byte(s): " + (f"raises {err}" if err else "dumps() differs from the first pickle")})
+            break
 # stacked
+for k in range(20):
+    parts = [rnd.choice(good)[1] for _ in range(rnd.randint(2, 4))]
+    blob = b"".join(parts)
+    for seg in (5, len(parts[0])):
+        try:
+            got = [p.dumps() for p in fk.StackedPickle.load(Segmented(blob, seg))]
+        except Exception as e:  # noqa
+            got = f"raises {type(e).__name__}"
+        if got != parts:
+            fails.append({"program": f"stack-segmented{k}", "bytes": blob.hex(), "how": "stacked, non-seekable stream with short reads: wrong parse",
+                          "what": f"{len(parts)} pickles in, reads of at most {seg} byte(s): " + (got if isinstance(got, str) else f"{len(got)} parts out, equal: {got == parts}")})
+            break
 for k in range(60):
     parts = [rnd.choice(good)[1] for _ in range(rnd.randint(1, 4))]
     blob = b"".join(parts)
